@@ -101,6 +101,8 @@ class Gen:
             if names:
                 return self.add(["named", self.rng.choice(names), like], t)
         v = self.rng.choice(FLOAT_VALUES)
+        if self.avoid and self.target == "python" and abs(v) == float("inf"):
+            v = 1e30  # inf/nan values print as bare names on the python target (known finding)
         isint = v == v and abs(v) != float("inf") and v == int(v)
         r = self.rng.random()
         if self.target == "python":
@@ -244,7 +246,8 @@ class Gen:
             if rng.random() < 0.1 and kind in I_ARITH + ["remainder"]:
                 return self.add(["op", kind, [self.i(), self.i()]], self.itype)
             a = self.anyf()
-            b2 = self.f(self.types[a]) if rng.random() < 0.85 else self.anyf()
+            same = rng.random() < 0.85 or (self.avoid and tg == "cpp" and kind in ("maximum", "minimum"))
+            b2 = self.f(self.types[a]) if same else self.anyf()
             return self.add(["op", kind, [a, b2]], self.fmax(self.types[a], self.types[b2]))
         return None
 
@@ -378,6 +381,12 @@ def known_finding_recipes():
                   nodes=[arg(0), ["const", ["float", fhex(0.1)], 0], op("multiply", 0, 1)], root=2, refs={}, stream="kf"))
     R.append(dict(target="cpp", name="kf_cpp_pi_double", args=[["x", "float32"]],
                   nodes=[arg(0), ["named", "pi", 0], op("multiply", 0, 1)], root=2, refs={}, stream="kf"))
+    R.append(dict(target="cpp", name="kf_cpp_max_mixed", args=[["x", "float64"], ["y", "float32"]],
+                  nodes=[arg(0), arg(1), op("maximum", 0, 1)], root=2, refs={}, stream="kf"))
+    R.append(dict(target="python", name="kf_py_inf_literal", args=[["x", "float"]],
+                  nodes=[arg(0), ["const", ["float", "inf"], 0], op("minimum", 0, 1)], root=2, refs={}, stream="kf"))
+    R.append(dict(target="numpy", name="kf_np_list_bool_debug1", args=[["x", "float64"]],
+                  nodes=[arg(0), op("lt", 0, 0), op("negative", 0)], root=[2, 1], refs={}, stream="kf"))
     R.append(dict(target="numpy", name="kf_np_const_alias", args=[["x", "float32"], ["y", "float64"]],
                   nodes=[arg(0), arg(1), ["const", ["float", fhex(0.1)], 0], ["const", ["float", fhex(0.1)], 1],
                          op("multiply", 0, 2), op("multiply", 1, 3), op("add", 4, 5)], root=6, refs={}, stream="kf"))
